@@ -22,36 +22,64 @@ structure Kind where
   xstep : Bool    -- the x-iterator is a memory_based_step_iterator (dynamic x step)
   pixbits : Int   -- bit_size of the pixel (bit kinds only)
   virt : Bool     -- virtual view: x / y iterators are position_iterators (no step adaptor, no memory)
+  planar : Bool   -- planar_pixel_iterator at the bottom (one pointer per channel; positions are those of plane 0)
+  chan : Int      -- sizeof(channel_t) (planar kinds only)
   deriving Repr, DecidableEq, Inhabited
 
-/-- `memunit_advance(it, diff)`: pointers add; bit iterators call `bit_range::bit_advance`.
+def b2i (b : Bool) : Int := if b then 1 else 0
+
+/-- `memunit_advance(it, diff)`: raw pointers add bytes (pixel_iterator.hpp), a planar iterator advances every
+    channel pointer with `memunit_advanced` (plane 0 shown), bit iterators call `bit_range::bit_advance`.
     A bit position `p` stands for (`_current_byte`, `_bit_offset`) = (p / 8, p % 8), floor. -/
 def memAdvance (k : Kind) (pos diff : Int) : Int :=
   if k.bit then
     let r := bit_advance (pos / 8) (pos % 8) diff
     r.1 * 8 + r.2
-  else pos + diff
+  else if k.planar then ptr_memunit_advanced pos diff
+  else ptr_memunit_advance pos diff
 
 /-- `memunit_distance(a, b)` -/
 def memDistance (k : Kind) (a b : Int) : Int :=
-  if k.bit then bit_distance_to (a / 8) (a % 8) (b / 8) (b % 8) else b - a
+  if k.bit then bit_distance_to (a / 8) (a % 8) (b / 8) (b % 8) else ptr_memunit_distance a b
 
-/-- `++x_iterator`: a raw bit iterator uses `bit_range::operator++`, a step iterator
-    `memunit_advance(base, 1*step)`, a pointer adds one pixel -/
+/-- `x_iterator += n` / `x_iterator + n`: a raw bit iterator calls `bit_advance(n * bit_size)`, a raw planar
+    iterator adds `n` to every channel pointer (n channels = `n * sizeof(channel_t)` bytes), step iterators
+    call `memunit_advance(base, n * step)`, a raw pointer moves by `n` pixels -/
+def xAdv (k : Kind) (xs pos n : Int) : Int :=
+  if k.bit && !k.xstep then memAdvance k pos (bitit_advance_bits n k.pixbits)
+  else if k.planar && !k.xstep then pos + n * k.chan
+  else memAdvance k pos (step_advance 0 n xs)
+
+/-- `x_iterator[n]`: `planar_pixel_iterator` has its own `operator[]`
+    (`memunit_advanced_ref(*this, n * sizeof(channel_t))`); every other iterator dereferences `it + n` -/
+def xIdx (k : Kind) (xs pos n : Int) : Int :=
+  if k.planar && !k.xstep then ptr_memunit_advanced pos (planar_index_bytes n k.chan)
+  else xAdv k xs pos n
+
+/-- `++x_iterator`: a raw bit iterator uses `bit_range::operator++`, a raw planar iterator increments every
+    channel pointer, a step iterator `memunit_advance(base, 1*step)`, a pointer adds one pixel -/
 def xInc (k : Kind) (xs pos : Int) : Int :=
   if k.bit && !k.xstep then
     let r := bit_increment (pos / 8) (pos % 8) k.pixbits
     r.1 * 8 + r.2
+  else if k.planar && !k.xstep then pos + k.chan
   else memAdvance k pos (step_advance 0 1 xs)
 
 /-- `--x_iterator` (`bit_range::operator--` is `bit_advance(-RangeSize)`) -/
-def xDec (k : Kind) (xs pos : Int) : Int := memAdvance k pos (step_advance 0 (-1) xs)
-
-/-- `x_iterator += n` / `x_iterator[n]` -/
-def xAdv (k : Kind) (xs pos n : Int) : Int := memAdvance k pos (step_advance 0 n xs)
+def xDec (k : Kind) (xs pos : Int) : Int :=
+  if k.planar && !k.xstep then pos - k.chan
+  else memAdvance k pos (step_advance 0 (-1) xs)
 
 /-- `y_iterator += n` (always a memory_based_step_iterator with step row_size) -/
 def yAdv (k : Kind) (ys pos n : Int) : Int := memAdvance k pos (step_advance 0 n ys)
+
+/-- what the TYPE of a raw (non-step) x-iterator fixes about its step: a bit iterator steps by the pixel's
+    bit size, a planar iterator by one channel -/
+def Kind.Natural (k : Kind) (xs : Int) : Prop :=
+  (k.bit = true → k.xstep = false → xs = k.pixbits ∧ 0 ≤ k.pixbits)
+  ∧ (k.planar = true → k.xstep = false → k.bit = false ∧ xs = k.chan ∧ 0 < k.chan)
+
+instance (k : Kind) (xs : Int) : Decidable (k.Natural xs) := by unfold Kind.Natural; exact inferInstance
 
 /-- a 2-D locator: position of its x-iterator plus the two steps -/
 structure Loc where
@@ -112,7 +140,7 @@ def View.endIt (k : Kind) (v : View) : It := (View.begin v).advance k (View.size
 /-! ### the navigation paths of image_view (address reached for pixel (x,y)) -/
 
 def pathCall (k : Kind) (v : View) (x y : Int) : Int := ((View.loc v).move k x y).pos       -- view(x,y), x_at, xy_at
-def pathRow (k : Kind) (v : View) (x y : Int) : Int := xAdv k v.xs ((View.loc v).move k 0 y).pos x   -- row_begin(y)[x]
+def pathRow (k : Kind) (v : View) (x y : Int) : Int := xIdx k v.xs ((View.loc v).move k 0 y).pos x   -- row_begin(y)[x]
 def pathCol (k : Kind) (v : View) (x y : Int) : Int := yAdv k v.ys ((View.loc v).move k x 0).pos y   -- col_begin(x)[y]
 def pathBegin (k : Kind) (v : View) (x y : Int) : Int := ((View.begin v).advance k (y * v.w + x)).p.pos  -- begin()[y*w+x]
 def pathAt (k : Kind) (v : View) (x y : Int) : Int :=                                        -- at(x,y) = (begin() + y*w) + x
@@ -160,22 +188,49 @@ def sumMoves : List Move → Int × Int
 
 /-! ### x / y iterators as (position, step) pairs -/
 
-/-- `a - b` for step iterators / pointers: `-(a.distance_to(b))`, distance_to = memunit_distance / step -/
-def stepSub (k : Kind) (step a b : Int) : Int := -(step_difference (memDistance k a b) step)
+/-- Boost `iterator_facade`'s relational operators, from `d = lhs.distance_to(rhs)`: `lhs < rhs` is
+    `0 > -d`, `>` is `0 < -d`, `<=` is `0 >= -d`, `>=` is `0 <= -d` (hand-modelled: not a GIL header) -/
+def facadeCmp (d : Int) : List Int := [b2i (decide (0 > -d)), b2i (decide (0 < -d)), b2i (decide (0 ≥ -d)), b2i (decide (0 ≤ -d))]
+
+/-- `a.distance_to(b)` of two x-iterators of the same view (memory-unit step `step`, positions `a`, `b`):
+    position_iterator / bit_aligned_pixel_iterator / planar_pixel_iterator have their own `distance_to`
+    (the planar one subtracts the channel-0 pointers: a difference in channels); step iterators use
+    `memunit_step_fn::difference`; raw pointers subtract (`(b - a) / sizeof(pixel)`) -/
+def xDistanceTo (k : Kind) (step a b : Int) : Int :=
+  if k.virt then pos_distance a b step
+  else if k.bit && !k.xstep then bitit_distance (memDistance k a b) k.pixbits
+  else if k.planar && !k.xstep then planar_distance_to (Int.tdiv (b - a) k.chan) 0
+  else step_difference (memDistance k a b) step
+
+/-- `a - b`: `-(a.distance_to(b))` (y-iterators are always step iterators) -/
+def itSub (k : Kind) (isY : Bool) (step a b : Int) : Int :=
+  -(if isY then step_difference (memDistance k a b) step else xDistanceTo k step a b)
 
 /-- `a < b`, `a > b`, `a <= b`, `a >= b` on x-iterators (`isY = false`) or y-iterators (`isY = true`)
     with memory-unit step `step`, at positions `a`, `b`.  Step iterators (every y-iterator; the
     x-iterator of a dynamic-step view) use the generated sign-keyed operators of
     `step_iterator_adaptor`, which compare the memory positions of their bases
     (`memunit_distance`, so a step iterator nested over another one compares correctly);
-    pointers, planar and bit iterators compare addresses; virtual views use position_iterators
-    (iterator_facade's distance-based operators). -/
+    raw bit iterators and position_iterators get all four from `iterator_facade` and their `distance_to`;
+    a raw planar iterator has its own `operator<` (channel-0 pointers) and the facade's other three;
+    raw pointers compare addresses. -/
 def itCmp (k : Kind) (isY : Bool) (step a b : Int) : List Int :=
-  if k.virt then
-    let d := pos_distance a b step          -- a.distance_to(b)
-    [if d > 0 then 1 else 0, if d < 0 then 1 else 0, if d ≥ 0 then 1 else 0, if d ≤ 0 then 1 else 0]
+  if k.virt then facadeCmp (pos_distance a b step)
   else if isY || k.xstep then [step_lt step a b, step_gt step a b, step_le step a b, step_ge step a b]
-  else [if a < b then 1 else 0, if a > b then 1 else 0, if a ≤ b then 1 else 0, if a ≥ b then 1 else 0]
+  else if k.bit then facadeCmp (xDistanceTo k step a b)
+  else if k.planar then planar_lt a b :: (facadeCmp (xDistanceTo k step a b)).drop 1
+  else [b2i (decide (a < b)), b2i (decide (a > b)), b2i (decide (a ≤ b)), b2i (decide (a ≥ b))]
+
+/-- `a == b` (planar iterators compare their channel-0 pointers) -/
+def itEq (k : Kind) (a b : Int) : Int := if k.planar && !k.xstep && !k.virt then planar_equal a b else b2i (a == b)
+
+/-! ### planar iterators with all their planes: a list of channel-pointer byte addresses -/
+
+/-- `it[d]`: `memunit_advanced_ref(it, d * sizeof(channel_t))` -- every channel pointer advanced by the same byte offset -/
+def planarIndex (c : Int) (ps : List Int) (d : Int) : List Int := ps.map fun p => ptr_memunit_advanced p (planar_index_bytes d c)
+
+/-- `it + d`: `plus_asymmetric` adds `d` to every channel pointer (pointer arithmetic: `d * sizeof(channel_t)` bytes) -/
+def planarAdvance (c : Int) (ps : List Int) (d : Int) : List Int := ps.map fun p => p + d * c
 
 /-! ### Spec: what the property demands of the *observations* (used by `judge`) -/
 
